@@ -99,3 +99,34 @@ def valRef : EncodedValue.Value → Option (List String)
   | _ => none
 
 end AgVerif.C05.ExampleX
+
+/-! ### the well-formedness hypotheses of the extension cannot be dropped -/
+
+namespace AgVerif.C05.ExampleX
+open AgVerif.DexFile AgVerif.LoadOrder AgVerif.DexX AgVerif.C05
+
+/-- the same content without the annotations directory section (the class def still names one) -/
+def TXnoDir : TablesX := { TX with annDirs := [] }
+
+def LnoDir : Layout := ⟨0xbc, [⟨0x2002, 3, 0x40⟩, ⟨0x0001, 3, 0x4c⟩, ⟨0x0002, 2, 0x58⟩, ⟨0x0004, 2, 0x60⟩, ⟨0x0005, 0, 0x70⟩,
+  ⟨0x2000, 1, 0x70⟩, ⟨0x2005, 1, 0x78⟩, ⟨0x2004, 1, 0x7d⟩, ⟨0x1003, 1, 0x84⟩, ⟨0x0006, 1, 0x9c⟩, ⟨0x1000, 1, 0xbc⟩]⟩
+
+theorem consistentNoDir : ConsistentX TXnoDir LnoDir size := by decide +kernel
+
+def isErrX (msg : String) : Except String DexVX → Bool
+  | .error e => e == msg
+  | .ok _ => false
+
+theorem isErrX_eq {msg : String} {r : Except String DexVX} (h : isErrX msg r = true) : r = .error msg := by
+  cases r with
+  | error e => simp only [isErrX, beq_iff_eq] at h; rw [h]
+  | ok v => simp [isErrX] at h
+
+/-- a file that encodes tables whose class def names an annotations directory, without a directory
+    section: ClassDefItem.reload raises KeyError (get_annotations_directory_item) -/
+theorem failsNoDir : parseDexX (buildX TXnoDir LnoDir size) = .error "KeyError" := isErrX_eq (by decide +kernel)
+
+theorem encodesNoDir : EncodesX (buildX TXnoDir LnoDir size) LnoDir TXnoDir :=
+  encodesX_buildX consistentNoDir ⟨itemsOk, arraysOk, annItemsOk⟩
+
+end AgVerif.C05.ExampleX
